@@ -28,6 +28,10 @@ def letters(dsmax):
         'x10': [b'q' * dsmax] * 10, 'n3000': [b'ab'] * 3000,
         # many empty strings then a real argument, total just below the limit (one byte per argument: separator only)
         'empties': [b''] * (dsmax - 10) + [b'END'],
+        # control bytes: a line feed inside an argument and as the very last byte of the last argument
+        'nl': [b'sh', b'-c', b'echo one\necho two\n'],
+        # argument strings adding up to more than 2^31 bytes (4100 entries that all point at one 512 KiB string)
+        'two_gib': 'SHARED',
     }
     L = {}
     for fn in ('execv', 'execve'):
@@ -40,6 +44,11 @@ def letters(dsmax):
                     av = [(3000, H.hx(b'ab'))]
                 elif ak == 'empties':
                     av = [(dsmax - 10, 'h'), H.hx(b'END')]
+                elif ak == 'two_gib':
+                    if (fn, pk) != ('execv', 'p'):
+                        continue
+                    av = ['4100^' + H.rep('g', 512 * 1024)]
+                    a = [b'g' * (512 * 1024)] * 2      # enough of it for the prefix rule (the reference never needs more than the limit)
                 else:
                     av = [H.hx(x) for x in a]
                 L[name] = (fn, p, a, 'call %s %s %s %s -1 2' % (fn, H.hx(p), H.vec(av), '[h413d31]' if fn == 'execve' else 'N'))
@@ -55,7 +64,8 @@ def reference(p, a, dsmax):
 def check_record(data, p, a, dsmax):
     """data = bytes appended to the log by this call.  returns list of failures"""
     fn_ref, cmd_ref = reference(p, a, dsmax)
-    if not data.endswith(b'\n') or data.count(b'\n') != 1:
+    # one record = message + ONE line feed added by the output; line feeds that belong to the arguments stay in the message
+    if not data.endswith(b'\n') or (data.count(b'\n') != 1 + cmd_ref[:dsmax].count(b'\n') + fn_ref[:dsmax].count(b'\n')):
         return ['framing']
     msg = data[:-1]
     if b'|' not in msg:
